@@ -36,9 +36,10 @@ PROVED = ["eg_id_numpy", "ehe_id_numpy", "sn_id_numpy", "bg_id_numpy", "wthh_id_
 #   #assign its assignment loop incl. the nested loop over the concatenated children lists, under the postcondition of
 #           #index: SAFETY (no KeyError / IndexError on any path), RANGE (everybody gets an id in [0, #units)) and NESTING
 #           (equal ids imply equal hh_id); who else shares an id is not part of it
+#   #partners the same loop under a stronger validity domain (no partnered person is eligible as a child): partners share an id
 # A stage contract speaks about internal state, so a refuted stage obligation is a violation only together with
 # a failing input of the whole kernel from the bounded-exhaustive run F; otherwise it is undecided.
-STAGES = ["fg_id_numpy#index", "fg_id_numpy#assign"]
+STAGES = ["fg_id_numpy#index", "fg_id_numpy#assign", "fg_id_numpy#partners"]
 
 
 def _vc_worker(name):
@@ -289,7 +290,7 @@ def run(tier="quick", seed=0, jobs=16):
     for st, name, res in results:
         if st != "ok":
             raise RuntimeError(res)
-        if name == "fg_id_numpy#assign" and "unsupported" not in res and (any(s_.startswith("fg_id_numpy#index") for s_ in stage_skipped) or "fg_id_numpy#index" in lost):
+        if name in ("fg_id_numpy#assign", "fg_id_numpy#partners") and "unsupported" not in res and (any(s_.startswith("fg_id_numpy#index") for s_ in stage_skipped) or "fg_id_numpy#index" in lost):
             # modularity: the VCs of the second stage assume the postcondition of the first; if that was not established
             # in this run, nothing proved from it counts
             res = {"name": name, "unsupported": "its hypothesis, the postcondition of fg_id_numpy#index, was not established in this run"}
